@@ -29,7 +29,7 @@ CHECKS = {
     "C07": ("differential runtime monitoring of all 12 conversions + from_Matrix + shadow switch vs oracle matrices; branch-cell coverage required (4 Shepperd, 3 Euler, 2 shadow)",
             "Every ordered pair of SO(3) parameterisations plus the four from_Matrix entry points and shadow_if_necessary on rotations covering all axes, exact pi, near-identity, both quaternion signs, shadow MRPs and the gimbal poles; result validity (unit norm, |r|<=1, orthonormal det +1, pitch range). Inconclusive unless all branches were visited.",
             "2.C07", TRUST + "2.01e-3 matrix tolerance inside the documented 1e-3 rad gimbal band"),
-    "C08": ("differential runtime monitoring vs 60-digit closed-form strapdown oracle; semigroup law over random step histories",
+    "C08": ("differential runtime monitoring vs 60-digit closed-form strapdown oracle and a 5x5 expm oracle for general increments; semigroup law over random step histories; numeric, element-level and by-name call paths",
             "strapdown_ins_propagate and SE23 exp_mixed against the exact solution of p'=v, v'=Ra-g e3, R'=R[w]x in mpmath for random states/inputs/dt incl. both sides of the coefficient switches; dt=0 identity; random step sequences vs one-shot propagation.",
             "2.C08", TRUST + "mpmath series summed to 1e-60"),
     "C09": ("differential execution of the generated C under clang ASan+UBSan (and valgrind memcheck in thorough) against the CasADi VM; symbol/ABI monitors",
@@ -42,8 +42,8 @@ CHECKS = {
             "initialize/predict/correct_mag/correct_accel from algorithms.eqs()['mrp'] on hostile inputs: exact initial attitude or non-zero code, never NaN; |r|<=1, lower-triangular W, 4th-order attitude accuracy; rejected correction bit-identical, accepted one finite and covariance non-increasing.",
             "2.C11", TRUST + "numpy oracle"),
     "C12": ("history monitoring of the real launch_sim runs: per-message sensor-model oracle, offline convergence checker on the log, interleaving signatures counted",
-            "Noise-free closed-loop runs over random true attitudes, biases, inclination/declination, rate settings and both initialisation modes; every IMU/Mag message checked against the oracle sensor model; attitude error < 0.05 rad after 10 s and each bias component error reduced to max(50%, 0.01); bounded-progress restatement of 'converges'.",
-            "2.C12", TRUST + "simpy scheduler; IMU rate >= 200 Hz envelope"),
+            "Noise-free closed-loop runs over random true attitudes, biases, inclination/declination, rate settings and both initialisation modes; every IMU/Mag message checked against the oracle sensor model; attitude error < 0.05 rad after 15 s of a 30 s run and each bias component error over the last 2 s <= max(80% of its 12-18 s value, 0.01 rad/s) -- a run that has not converged by then is re-run for 150 s and decided on (100 s, 150 s] (bounded-progress restatement of 'converges'); parameters set in random order and in several units/forms; configured magnitudes and periods checked against the configuration; steep inclinations (1.0-1.33 rad): initialisation only.",
+            "2.C12", TRUST + "simpy scheduler; IMU rate >= 200 Hz, |inclination| <= 1 rad and |declination| <= 0.9 rad envelope for the convergence claim"),
     "C13": ("case-directed runtime monitoring of the allocator against an exact numpy case analysis; all saturation cells required incl. exact C1=0/C2=0 boundaries",
             "control_allocation on random and boundary-constructed demands: bounds, finite non-negative speeds, exact reproduction when jointly achievable, moment preservation with least collective shift when the moment alone fits.",
             "2.C13", TRUST + "numpy oracle with power-of-two geometry for exact boundaries"),
@@ -57,15 +57,15 @@ CHECKS = {
             "q.qdot=0, hover equilibrium, free-fall accelerometer, force/moment per rotor, zero moment on symmetric frames, yaw/translation equivariance, motor relaxation with the right time constants.",
             "2.C16", TRUST + "numpy oracle"),
     "C17": ("closed-loop trajectory monitoring (histories): invariants each step, convergence over the last 5 s",
-            "Both shipped cascades wired as in scripts/rdd2_sim.py around the real model with RK4 at 1 ms / control at 100 Hz from random initial conditions in the envelope; finite, motor limits, above ground, position error < 5 cm, settled attitude/rates.",
-            "2.C17", TRUST + "harness reproduces the simulator's wiring and gains; commanded heading 0"),
+            "Both shipped cascades wired as in scripts/rdd2_sim.py around the real model with RK4 at 1 ms / control at 100 Hz from random and structured (axis-aligned, exact-zero) initial conditions in the envelope, gains and plant parameters as run-time inputs; finite, motor limits, above ground, never turned over, position error < 5 cm over the last 5 s (30 s runs; 45 s for the log-linear cascade), settled attitude/rates.",
+            "2.C17", TRUST + "harness reproduces the simulator's wiring and gains; commanded heading: any for the position controller, |psi| <= 0.7 rad for the log-linear cascade (the pinned tree diverges beyond ~1 rad)"),
     "C18": ("differential runtime monitoring vs exact Bernstein polynomials in rational arithmetic; AD consistency of derivative rows",
             "Bezier.eval/deriv for degree 1-10, dims 1-4, t inside/outside [0,T]; solvers' boundary conditions at both ends; *_traj and bezier_multirotor rows are successive time derivatives.",
             "2.C18", TRUST + "fractions.Fraction oracle"),
     "C19": ("grammar-based differential testing of both converters: random expression trees evaluated at random domain points",
             "Random SymPy trees over the accepted grammar (ints, rationals, non-integer/negative floats, powers, roots, trig, matrices, f_dict, cse) and random SX trees over every translated opcode are converted and both sides evaluated numerically; symbol-table consistency.",
             "2.C19", TRUST + "mpmath/sympy evaluation of the source"),
-    "C20": ("history recording at the publisher/subscriber boundary + offline sequential-model checker; hostile publisher against the real estimator node",
+    "C20": ("history recording at the publisher/subscriber boundary + offline sequential-model checker (nested and same-topic publishes, re-used messages, source-clock stamps, node-side parameter sets); hostile publisher and mid-run parameter broadcasts against the real estimator node",
             "Random topologies and timing patterns on the real Core/Publisher/Subscriber/Param/Logger: exactly-once synchronous in-order delivery to the right nodes, type rejection, parameter propagation, logger rows; estimator dt guard and correction rate limits under duplicate/decreasing/bursty stamps.",
             "2.C20", TRUST + "simpy scheduler"),
 }
